@@ -50,10 +50,11 @@ type outcome struct {
 // only that branch carries.
 func txFor(env *chainkit.Env) func(s chaintree.Shape, i int, g *core.BlockGen, sib int) {
 	return func(s chaintree.Shape, i int, g *core.BlockGen, sib int) {
+		// one transaction that every block of the same height carries (mined on every branch) and one
+		// that only this block carries (its value is derived from the parent and the sibling number)
 		g.AddTx(env.Transfer(0, g.TxNonce(env.Addrs[0]), env.Addrs[2], 1000))
-		if sib > 0 {
-			g.AddTx(env.Transfer(1, g.TxNonce(env.Addrs[1]), env.Addrs[2], int64(100+sib)))
-		}
+		ph := g.PrevBlock(-1).Hash()
+		g.AddTx(env.Transfer(1, g.TxNonce(env.Addrs[1]), env.Addrs[2], int64(100+sib+4*(int(ph[0])<<8|int(ph[1])))))
 	}
 }
 
@@ -496,9 +497,7 @@ outer:
 							mm := m
 							ops := append(append(append([]Op(nil), base[:k]...), Op{SetHead: &mm}), base[k:]...)
 							runOne(s, tr, txs, ops, false)
-							if tier == "thorough" {
-								runOne(s, tr, txs, ops, true)
-							}
+							runOne(s, tr, txs, ops, true)
 						}
 					}
 				}
